@@ -2,7 +2,7 @@
 from vf import core
 from . import chainsync as cs
 
-FORMULAS = {'NoPanic', 'Convergence', 'InSyncNotifyOK'}
+FORMULAS = {'NoPanic', 'Convergence', 'InSyncNotifyOK', 'SendHeadersInSync'}
 
 
 def main(argv):
